@@ -983,11 +983,88 @@ func (f *Frame) instrWrites(ins ssa.Instruction, set map[string]bool) {
 	case *ssa.Defer:
 		f.callWrites(&x.Call, set)
 	}
-	// ghost updates attached to sites
+	// ghost updates attached to sites: only those whose site pattern can fire at this
+	// instruction (or inside a callee that is executed in place at this instruction)
 	if f.fc != nil {
+		var kinds []string
+		nested := false
+		switch x := ins.(type) {
+		case *ssa.Call:
+			if b, ok := x.Call.Value.(*ssa.Builtin); ok {
+				switch b.Name() {
+				case "close":
+					kinds = []string{"close"}
+				case "delete":
+					kinds = []string{"mapdelete"}
+				}
+			} else {
+				kinds = []string{"call", "after"}
+				if sc := x.Call.StaticCallee(); sc != nil {
+					if f.u.eng.contractOf(sc) == nil && len(sc.Blocks) > 0 {
+						nested = true
+					}
+				} else if !x.Call.IsInvoke() {
+					nested = true // function value: may be a closure executed in place
+				}
+			}
+		case *ssa.Go:
+			kinds = []string{"go"}
+		case *ssa.Defer:
+			kinds = []string{"defer"}
+		case *ssa.RunDefers:
+			nested = true
+			kinds = []string{"call", "after"}
+		case *ssa.Select:
+			kinds = []string{"select", "send"}
+		case *ssa.Send:
+			kinds = []string{"send"}
+		case *ssa.Store:
+			kinds = []string{"store"}
+		case *ssa.MapUpdate:
+			kinds = []string{"mapupdate"}
+		case *ssa.Lookup:
+			kinds = []string{"maplookup"}
+		case *ssa.UnOp:
+			if x.Op == token.ARROW {
+				kinds = []string{"recv"}
+			}
+		case *ssa.Return:
+			kinds = []string{"return"}
+		case *ssa.Panic:
+			kinds = []string{"panic"}
+		}
 		for _, s := range f.fc.Sites {
-			for _, g := range s.Ghost {
-				set["Gh_"+g.Name] = true
+			if len(s.Ghost) == 0 {
+				continue
+			}
+			hit := false
+			if _, isRD := ins.(*ssa.RunDefers); isRD {
+				hit = true
+			}
+			for _, k := range kinds {
+				if hit {
+					break
+				}
+				saved := f.siteChan
+				if sel, ok := ins.(*ssa.Select); ok && k == "send" {
+					for _, sst := range sel.States {
+						f.siteChan = sst.Chan
+						if f.siteMatches(s, k, ins) {
+							hit = true
+						}
+					}
+				} else if f.siteMatches(s, k, ins) {
+					hit = true
+				}
+				f.siteChan = saved
+			}
+			if !hit && nested && !strings.Contains(s.Pattern, "#") {
+				hit = true
+			}
+			if hit {
+				for _, g := range s.Ghost {
+					set["Gh_"+g.Name] = true
+				}
 			}
 		}
 	}
